@@ -301,12 +301,16 @@ def process_lines(args):
     }
     judge = JUDGES[cfg["judge"]]
     hook = cfg.get("classify")
+    work = []
     for line in lines:
         rec = C.decode_printt(line)
-        g = rec["g"]
         style = cfg.get("style", "alt")
         if style == "alt":  # alternate between the two printers, deterministically per grammar
             style = "min" if (zlib.crc32(line.encode()) & 1) else "full"
+        for st_ in (("full", "min") if style == "both" else (style,)):
+            work.append((rec, st_))
+    for rec, style in work:
+        g = rec["g"]
         gtext = gast.print_grammar(g, style=style)
         res["grammars"] += 1
         # round-trip guard: the front end must have built the intended AST (else it is C10's business)
